@@ -1,2 +1,32 @@
-(** C05 placeholder *)
-From GoSh Require Import Base.Bytes.
+(** C05 — Print then parse gives back the same program, under every printer style.
+    Proved here: the here-document placement of the printer (the part of the round trip where the
+    defects were).  Model: Print/Heredocs.v, the bookkeeping of printer.go (push / redir / newline /
+    heredoc / suspend) as operations on a stack of levels, and the lexer's reading rule as a reader
+    of the emitted events; tied to the printer on every run by replaying on the model the operations
+    the real printer performed (hook printer.VerifHook) and comparing the events.
+    The token-level half of the round trip is C02's completeness (every token rendering of a
+    derivation parses to its skeleton).  The rest of the printer (word quoting, separators, layout
+    under the 256 styles) is not modelled: it is decided by the round-trip check on every run. *)
+From Coq Require Import List.
+Import ListNotations.
+From GoSh Require Import Print.Heredocs.
+
+(** For every sequence of printer operations -- any nesting of levels and of multi-line expansions,
+    any placement of newlines, expansions printed in the middle of a body -- that runs without fault
+    and leaves nothing open, every here-document is read back exactly once, by the lexer that saw
+    its announcement, at the first newline after it, in the order of the announcements. *)
+Theorem C05_printed_heredocs_are_read_back :
+  forall ops s evs,
+    hrun (mkP [] [] []) ops = Some (s, evs) -> levels s = [] -> writing s = [] -> saved s = [] ->
+    reader evs RNormal [] [] = true.
+Proof. exact printed_heredocs_are_read_back. Qed.
+Print Assumptions C05_printed_heredocs_are_read_back.
+
+(** The same from any intermediate state: what the reader still expects is what the printer is
+    writing followed by what is pending, outermost level first (the invariant of the proof). *)
+Theorem C05_reader_tracks_printer :
+  forall ops s s2 evs, hrun s ops = Some (s2, evs) -> forall k,
+    reader (evs ++ k) RNormal (q_of (levels s) (writing s)) (ctx_of (saved s)) =
+    reader k RNormal (q_of (levels s2) (writing s2)) (ctx_of (saved s2)).
+Proof. exact run_reader. Qed.
+Print Assumptions C05_reader_tracks_printer.
